@@ -105,6 +105,24 @@ def attach(msg, data, source='bytes', tmpdir=None):
         msg.data_set = bytes(data)
     elif source == 'bytesio':
         msg.data_set = io.BytesIO(bytes(data))
+    elif source == 'offset':
+        # a real file whose data set starts at the current position, not at 0 (as storage_scu passes a Part-10
+        # file positioned behind its meta header)
+        fd, path = tempfile.mkstemp(prefix='vf_ds_', dir=tmpdir)
+        with os.fdopen(fd, 'wb') as fh:
+            fh.write(b'\xA5' * 333 + bytes(data))
+        msg.data_set = open(path, 'rb')
+        msg.data_set.seek(333)
+        os.unlink(path)
+    elif source == 'gzip':
+        # a seekable file object whose descriptor belongs to a DIFFERENT byte stream than read() delivers
+        import gzip
+        fd, path = tempfile.mkstemp(prefix='vf_ds_', dir=tmpdir)
+        with os.fdopen(fd, 'wb') as fh:
+            with gzip.GzipFile(fileobj=fh, mode='wb', mtime=0) as gz:
+                gz.write(bytes(data))
+        msg.data_set = gzip.open(path, 'rb')
+        os.unlink(path)
     else:
         fd, path = tempfile.mkstemp(prefix='vf_ds_', dir=tmpdir)
         with os.fdopen(fd, 'wb') as fh:
